@@ -234,7 +234,7 @@ prop("C03", [sel("guard", fn=r"(::view$|::view_mut$|from_toodee|calculate_view_d
 prop("C04", [sel("encaps", fn=r"^(TooDeeViewMut|RowsMut|ColMut|<impls>)"), sel("witness", fn=r"^(W5|W8|W10|<witness>)", keep_rule_floor=False), sel("units", fn=r"TooDeeViewMut"), sel("dup"), sel("take", fn=r"^(RowsMut|ColMut)"), sel("cursor", fn=r"^(RowsMut|ColMut)( |:|$)|<rule>"), sel("layout", fn=r"^TooDeeViewMut|<rule>"), sel("nth"), sel("units", fn=SWAPS), sel("ovf", fn=r"^(RowsMut|ColMut) as "), sel_dyn(A_VIEWMUT)],
      "Confinement to a mutable view, structural clauses: the view's fields are module-private and RowsMut/ColMut fields crate-private, TooDeeViewMut/RowsMut/ColMut are not Clone (no second writer), the generic algorithm layers (ops/sort/translate/copy) are written against the trait only and use only permutation primitives (R-DUP); the mutable cursors never read a taken slice (R-TAKE). (R-LAYOUT) every writer of module view (index_mut x2, get_unchecked*_mut, col_mut, rows_mut, swap_rows, view_mut, from_toodee, new) matches a confined schema with S = the view's stride: L-POS / L-ROW / L-COLV / L-SWAPROWS / L-WINDOW and the literals RowsMut { cols: C, skip_cols: stride - C }, ColMut { skip: stride - 1 }; (R-CURSOR) RowsMut / ColMut then hand out only [k*(C+K), +C) / single cells; (R-NTH, R-UNITS) the provided swap / swap_rows / row_pair_mut a mutable view inherits address exactly the named cells.",
      declined=["effect inside the rectangle equals the effect on an owned copy (runtime values)"])
-prop("C05", [sel("rawbounds"), sel("conv", fn=r"IntoIterator|From<toodee"), sel("shape", rules=["R-HIDE", "R-LEAK", "R-LEAK-DRAIN", "R-DRAINSTEP", "R-DRAINORDER", "R-STALE", "R-RESTORE"]), sel("dup"), sel("zstptr"), sel("guard", fn=r"(::view$|::view_mut$|from_toodee|calculate_view_dimensions)"), sel("cursor", fn=r"^Col( |:|$)|<rule>")],
+prop("C05", [sel("rawbounds"), sel("conv", fn=r"IntoIterator|From<toodee"), sel("shape", rules=["R-HIDE", "R-LEAK", "R-LEAK-DRAIN", "R-DRAINSTEP", "R-DRAINORDER", "R-STALE", "R-RESTORE"]), sel("dup"), sel("zstptr"), sel("guard", fn=r"(::view$|::view_mut$|from_toodee|calculate_view_dimensions)"), sel("cursor", fn=r"^Col( |:|$)|<rule>"), sel("drainlit")],
      "clauses only: ownership discipline of C05 - (R-RAWBOUNDS) every ptr::copy / ptr::write / ptr::read / from_raw_parts on the array's buffer in insert_row, insert_col, remove_col and the drain's destructor reads inside the extent that was initialised when the window opened and writes inside the reserved capacity, for every shape and index: offsets are polynomials relative to as_mut_ptr(), counted loops are summarised by induction-variable analysis (checked at the first and last iteration), and each bound is discharged by substituting the path facts (index <= dim, len == rows*cols) and checking coefficient signs; (R-HIDE) every bitwise move of elements (ptr::copy/read/write) happens while the Vec length is lowered and every normal path restores it, no restore on an unwind path; (R-DUP) the generic layers only permute; (R-ZSTPTR) progress is never decided by comparing element pointers (zero-sized T); (R-LEAK / R-LEAK-DRAIN) a leaked drain leaves a buffer whose visible part contains no moved-out element; (R-DRAINSTEP) the column drain's iterator methods only single-step the embedded cursor and read out each stepped-over element (a jumping override would forget elements), and the embedded Col cursor conforms to the ideal strided cursor (R-CURSOR); (R-GUARD) a window never extends past the array's rows/columns - a view reaching into the Vec's spare capacity would resurrect dropped elements.",
      declined=["the count: that raw moves copy each element to exactly one live slot (placement inside the buffer; DESIGN 2.1) - only that they stay inside it"])
 prop("C06", [sel("shape", rules=["R-DRAINSTEP"]), sel("cursor", fn=r"^Col( |:|$)|<rule>"), sel("flatseq"), sel("rotate"), sel("rawbounds", fn=INSERT + r"|<rule>"), sel("guard", fn=INSERT), sel("zero", fn=INSERT), sel("shape", fn=INSERT), sel("deleg", fn=r"TooDee::push"), sel("zstptr", fn=INSERT), sel("units", fn=INSERT), sel("guard", rules=["R-ARITH"], fn=r"TooDee::reserve")],
